@@ -93,6 +93,58 @@ def gen_lines(rng, tier):
         L.append("between %d %d %d %d" % (rng.below(1 << 32), a, b, 200 if not big else 2000))
     for _ in range(6 if not big else 40):
         L.append("mixed %d %d" % (rng.below(1 << 32), 4000))
+    # ---- vita::random on top of the engine: integral / floating between, sup, in, element, ring, boolean
+    import struct
+
+    def dbits(x):
+        return struct.unpack("<Q", struct.pack("<d", x))[0]
+
+    def state_with_output(t):
+        """explicit engine state whose next output is t (the ** scrambler inverted)"""
+        inv5, inv9 = 14757395258967641293, 10248191152060862009
+        y = (t * inv9) & U64
+        y = ((y >> 7) | (y << 57)) & U64
+        return "st:%d:%d:%d:%d" % (rng.next(), (y * inv5) & U64, rng.next(), rng.next())
+
+    def eng():
+        m = rng.below(5)
+        if m == 0:           # rare events: the largest / smallest canonical values
+            return state_with_output(rng.choice([U64, U64 - 1023, U64 - 1024, U64 - 1025, 0, 1, 2047, 1 << 63,
+                                                 (1 << 63) - 1, U64 - rng.below(4096)]))
+        if m == 1:
+            return "st:%d:%d:%d:%d" % tuple(rng.next() for _ in range(4))
+        return str(rng.below(1 << 32))
+
+    cnt = 100 if not big else 1000
+    dmax = 1.7976931348623157e308
+    dranges = [(0.0, 1.0), (1.0, 2.0), (-1.0, 1.0), (1.0, 1.0000000000000002), (-1e16, 1.0), (1e300, dmax),
+               (-dmax, dmax), (5e-324, 1e-323), (-5.0, -4.999999999), (4503599627370496.0, 9007199254740992.0),
+               (9007199254740992.0, 9007199254740994.0), (-1.5, 2.5), (0.0, 5e-324), (-1e-300, 1e-300),
+               (0.1, 0.30000000000000004), (-3.0, 1e16), (2.0, 4.0), (-2.0, -1.0)]
+    for _ in range(20 if not big else 200):
+        a = (rng.next() / float(1 << 64) - 0.5) * 10 ** rng.between(-20, 20)
+        w = rng.next() / float(1 << 64) * 10 ** rng.between(-25, 20)
+        if a + w > a:
+            dranges.append((a, a + w))
+    for a, b in dranges:
+        for _ in range(2):
+            L.append("betd %s %d %d %d" % (eng(), dbits(a), dbits(b), cnt))
+    for pv in [0.0, 1.0, 0.5, 0.3, 2.0 ** -64, 1 - 2.0 ** -53, 2.0 ** -53, 0.999] + \
+            [rng.next() / float(1 << 64) for _ in range(8 if not big else 60)]:
+        L.append("bool %s %d %d" % (eng(), dbits(pv), cnt))
+    for n in [2, 3, 7, 100, 65537, (1 << 31) + 5, (1 << 32) - 1] + [rng.between(2, 1 << rng.between(2, 32)) for _ in range(10)]:
+        for width in {1, 2, 3, max(1, n - 1), n, min(n + 1, U64 >> 32), min(2 * n, (1 << 32) - 1), rng.between(1, n + 1)}:
+            L.append("ring %s %d %d %d %d" % (eng(), rng.below(n), width, n, cnt))
+    for b in [1, 2, 3, 1 << 31, (1 << 32) - 1] + [rng.between(1, 1 << 32) for _ in range(10 if not big else 100)]:
+        L.append("supu %s %d %d" % (eng(), b, cnt))
+    for a, b in [(0, U64), (1 << 63, U64), (0, 1), (U64 - 1, U64), (5, 6), (0, 1 << 63), (0, (1 << 63) + 1)] + \
+            [tuple(sorted((rng.next(), rng.next()))) for _ in range(10 if not big else 100)]:
+        if a < b:
+            L.append("betu64 %s %d %d %d" % (eng(), a, b, cnt))
+    for a, b in ranges[:12]:
+        L.append("inr %s %d %d %d" % (eng(), a, b, cnt))
+    for size in [1, 2, 3, 10, 1000, 65536] + [rng.between(1, 5000) for _ in range(6)]:
+        L.append("elem %s %d %d" % (eng(), size, cnt))
     # operator== against the future stream: equal states, states that differ in one word / one bit
     for _ in range(80 if not big else 600):
         ws = [rng.next() if rng.below(4) else rng.choice([0, 1, U64, 1 << 63]) for _ in range(4)]
@@ -857,7 +909,17 @@ def run(chk, replay=None):
                 found.append((len(ln), "`%s`: a state written with operator<< and read back with operator>> does "
                               "not continue the same sequence (%s)" % (ln, c), {"line": ln, "cpp": c},
                               {"kind": op, "clause": c.split()[0]}))
-        if op in ("sup", "between", "mixed") and ("nondet" in c or "range!" in c):
+        if op == "betd":
+            m = re.search(r"lo=(\d+) eq=(\d+) hi=(\d+)", c)
+            if m:
+                lo, eq, hi = map(int, m.groups())
+                chk.count("betd:draws-equal-to-sup", eq)
+                chk.count("betd:draws-above-sup", hi)
+                if lo:
+                    found.append((len(ln), "`%s`: random::between<double> returned %d value(s) below `min`" % (ln, lo),
+                                  {"line": ln, "cpp": c}, {"kind": op, "clause": "below-min"}))
+        if op in ("sup", "between", "mixed", "supu", "betu64", "inr", "elem", "ring", "betd", "bool") and \
+                ("nondet" in c or "range!" in c):
             found.append((len(ln), "`%s`: %s" % (ln, "re-seeding with the same seed gives different draws in the "
                           "same process" if "nondet" in c else "a draw left the requested range"),
                           {"line": ln, "cpp": c}, {"kind": op, "clause": "nondet" if "nondet" in c else "range"}))
